@@ -123,6 +123,107 @@ let check_info line spec (v : val0) (info : string) =
       | None -> ())
    | _ -> ())
 
+(* ---- extension: the STATEFUL readers (C15_Dest_Defs) ---------------------------------------------------------------
+   REUSE spec | destination bytes before | stream | verdict | destination bytes afterwards
+     the extracted read_into (decisions of the current source) applied to the state the destination bytes decode to must
+     accept, consume the stream, and leave a state that serialises to exactly the bytes the library reports;
+     the same line is run through the two refuted variants (early exit on empty strings, resize skipped on an equal
+     element count): the number of lines on which they differ from the library measures how well the generator aims at
+     the hazard (reported, never an error)
+   HALF spec | destination before | truncated stream | verdict | destination afterwards   (strings and tensors)
+     failure must be reported by both; the half-written state must be the one [rd] computes (tensors whose element
+     count changes get an uninitialised buffer: only dims and the bytes that arrived are compared) *)
+let nreuse = ref 0
+let nhalf = ref 0
+let hit_early = ref 0
+let hit_skip = ref 0
+let blank_proto (_ : n list) : val0 = VU
+
+let dfmt_of_spec (spec : string) : dfmt option =
+  match String.split_on_char ':' spec with
+  | "tensor" :: r :: w :: s :: _ ->
+    Some (D_tensor { t_rank = nat_of_int (int_of_string r); t_width = nat_of_int (int_of_string w); t_signed = (s = "1") })
+  | ["string"] -> Some d_string
+  | ["param"] -> Some d_param
+  | ["config"] -> Some (d_config !cur)
+  | ["feature"] -> Some (d_feature !ftypes)
+  | ["object"; "wlearner"] -> Some (d_object blank_proto (d_wlearner_table (env ()) !wlids))
+  | ["object"; "linear"] ->
+    (match Hashtbl.find_opt ids "linear" with
+     | Some l -> Some (d_object blank_proto (List.map (fun id -> (nlist_of_string id, d_linear (env ()))) l))
+     | None -> None)
+  | ["object"; kind] ->
+    (match Hashtbl.find_opt ids kind with
+     | Some l -> Some (d_plain_object blank_proto !cur (List.map nlist_of_string l))
+     | None -> None)
+  | ["linear"] -> Some (d_linear (env ()))
+  | ["gboost"] -> Some (d_gboost blank_proto (env ()) !wlids)
+  | ["wlearner"; k] ->
+    (match int_of_string k with
+     | 0 -> Some (d_affine (env ())) | 1 -> Some (d_stump (env ())) | 2 -> Some (d_hinge (env ()))
+     | 3 -> Some (d_table (env ())) | 4 -> Some (d_dtree (env ())) | _ -> None)
+  | _ -> None
+
+let nlist_of_hex (h : string) : n list = let a = bytes_of_hex h in nlist_of_sub a (Array.length a)
+let short_line line = if String.length line > 3000 then String.sub line 0 3000 ^ "..." else line
+
+let handle_reuse line rest =
+  match List.map trim (split_str " | " rest) with
+  | [spec; dest; stream; verdict; again] ->
+    (match dfmt_of_spec spec with
+     | None -> report "MISMATCH" line "unknown format spec (driver, REUSE)"
+     | Some f ->
+       incr nreuse; incr total;
+       let d = nlist_of_hex dest and bs = nlist_of_hex stream in
+       let faithful = reuse_result (src_policy zero_junk) f d bs in
+       (match faithful with
+        | None ->
+          if verdict = "A" then report "MISMATCH" (short_line line) "stateful model reader rejects, the implementation accepted"
+        | Some (out, r) ->
+          if verdict <> "A" then report "MISMATCH" (short_line line) "stateful model reader accepts, the implementation reported failure"
+          else begin
+            if r <> [] then report "MISMATCH" (short_line line) "stateful model reader leaves unread bytes";
+            if out <> nlist_of_hex again then
+              report "MISMATCH" (short_line line) "the destination of the stateful model reader serialises to other bytes than the library's destination"
+          end);
+       (* the refuted variants on the same line *)
+       if reuse_result (early_exit_policy zero_junk) f d bs <> faithful then incr hit_early;
+       if reuse_result (skip_resize_policy zero_junk) f d bs <> faithful then incr hit_skip)
+  | _ -> report "MISMATCH" line "malformed REUSE line"
+
+let handle_half line rest =
+  match List.map trim (split_str " | " rest) with
+  | [spec; dest; stream; verdict; after] ->
+    (match dfmt_of_spec spec with
+     | None -> report "MISMATCH" line "unknown format spec (driver, HALF)"
+     | Some f ->
+       incr nhalf; incr total;
+       let d = nlist_of_hex dest and bs = nlist_of_hex stream in
+       let (st, good) = reuse_state (src_policy zero_junk) f d bs in
+       let impl = Array.of_list (nlist_of_hex after) and model = Array.of_list st in
+       if verdict = "A" then report "PROPFAIL" (short_line line) "the implementation accepted a strict prefix into a used destination";
+       if good <> (verdict = "A") then report "MISMATCH" (short_line line) "stateful model and implementation disagree on the verdict of a truncated stream"
+       else begin
+         let same_range lo hi =
+           let ok = ref true in
+           for i = lo to hi - 1 do
+             if i >= Array.length impl || i >= Array.length model || impl.(i) <> model.(i) then ok := false
+           done; !ok in
+         let whole () = Array.length impl = Array.length model && same_range 0 (Array.length impl) in
+         let agree =
+           match String.split_on_char ':' spec with
+           | "tensor" :: r :: _ ->
+             let hdr = 20 + 4 * int_of_string r in
+             let cut = List.length bs in
+             if String.length dest = String.length after then whole ()   (* same element count: the buffer was kept *)
+             else Array.length impl = Array.length model && same_range 8 (hdr - 12) && (cut <= hdr || same_range hdr cut)
+           | _ -> whole () in
+         if not agree then
+           report "MISMATCH" (short_line line) ("half-written destination: the model computes " ^
+                                               String.concat "" (List.map (fun x -> Printf.sprintf "%02x" (int_of_n x)) st))
+       end)
+  | _ -> report "MISMATCH" line "malformed HALF line"
+
 let accepts_arr f (a : int array) (len : int) : bool =
   match dec f (nlist_of_sub a len) with Some _ -> true | None -> false
 
@@ -194,7 +295,10 @@ let () =
                 | Some i -> Some (nlist_of_string (String.sub t 0 i), n_of_int (int_of_string (String.sub t (i + 1) (String.length t - i - 1))))
                 | None -> None) (String.split_on_char ',' (trim rest))
           | "OBJ" -> handle_obj line rest
+          | "REUSE" -> handle_reuse line rest
+          | "HALF" -> handle_half line rest
           | _ -> ())
      done
    with End_of_file -> ());
-  Printf.printf "MODEL-DONE checked=%d verdicts=%d mismatches=%d\n" (!total + !nverd) !nverd !mism
+  Printf.printf "MODEL-DONE checked=%d verdicts=%d mismatches=%d reuse=%d half=%d hit_early=%d hit_skip=%d\n" (!total + !nverd) !nverd !mism
+    !nreuse !nhalf !hit_early !hit_skip
